@@ -30,6 +30,8 @@ def nt_gates(suite, case, impl):
 
 def nt_server(suite, case, impl):
     ops = [l.split()[1] for l in case["lines"] if l.startswith("op ")]
+    if suite == "serverconc":
+        return len(ops) >= 2
     return "sub" in ops and "push" in ops and "recv" in ops
 
 
@@ -173,16 +175,16 @@ PROPS = {
         "level_text": "Props/C07 (kernel-checked, every store, hub, schedule of hub pushes, configuration): burst_starts_at_requested_block + handoff_replaces_file_side — at the handoff the file event is dropped and the hub's burst starts with exactly that block number, and the file side is discarded (LiveClean, simLoop_prefix: after the handoff no file event is ever delivered; deliveries are never retracted or reordered); non_new_event_is_delivered + undo_is_not_joinable — an Undo or Irreversible event coming out of the cursor resolver never triggers the handoff and is always delivered (the dropped-undo defect fixed by f47de1c). The consumer-level statement (one sequence following the discipline from the consumer state implied by the start point, every canonical block exactly once) depends on files and hub being views of one chain and is decided by the Lean stream monitors on the implementation's runs.", "level_note": LEVEL_NOTE_COMMON, "explanation": 'kernel-checked lemmas about the simulation model + Lean consumer monitors on runs of the real stream/hub/file source under explicit schedules (70/1500 runs)',
     },
     "C13": {
-        "suites": [("stream", 100, 1500)], "props": ["C13"], "level": "proof", "suite_timeout": 2400,
-        "nontrivial": lambda suite, case, impl: any(l.startswith("impl send stop") or l.startswith("impl send invalidarg") for l in case["lines"]),
-        "rule": "same cases as C07; non-trivial = the stream ended with stop-block-reached or an invalid-argument error",
+        "suites": [("stream", 100, 1500), ("filesrc", 300, 4000)], "props": ["C13"], "level": "proof", "suite_timeout": 2400,
+        "nontrivial": lambda suite, case, impl: any(l.startswith("impl send stop") or l.startswith("impl send invalidarg") or l.startswith("impl fsend stop") for l in case["lines"]),
+        "rule": "same cases as C07, plus the file-source cases of C10 (stop blocks anywhere, also on bundle boundaries inside the files); non-trivial = the stream / file source ended with stop-block-reached or an invalid-argument error",
         "technique": "Lean 4 model of Stream option handling (negative start, start/stop check, final-only cursor check, filter and stop handlers as list transformers) + monitors (nothing above the stop block, filters only remove) + differential correspondence",
         "level_text": "Props/C13: run_respects_bounds — for every run of the stream model (any files, hub, schedule of hub pushes, cursor, options) every delivered event passed the step filter, with a stop block no delivered block is above it and a delivery at the stop height is the last one (stop_block_is_last); filter_only_removes, no_stop_keeps_all, stop_block_delivered — the handler chain as a list transformer; default_filter / final_only_filter / custom_filter — which steps pass; negative_start / nonneg_start — start = max(first streamable, head − distance) saturating at 0; start_after_stop_rejected, final_only_refuses_non_final_cursor — rejected as invalid argument before any source is created. 'The stop block is delivered when it exists' across files/live is decided by the stream monitor.", "level_note": LEVEL_NOTE_COMMON, "explanation": 'theorems for all runs of the model; tie to stream.go by differential runs against the real stream',
     },
     "C11": {
-        "suites": [("faults", 500, 6000)], "props": ["C11"], "level": "fault_enumeration",
-        "nontrivial": lambda suite, case, impl: any(l.startswith("impl blk") for l in case["lines"]),
-        "rule": "cases = a file source over a generated chain in bundles (size 2/3/5/10, 1-6 preprocessor threads, start in the first half, stop near the end) with exactly one injected fault: OpenObject of one bundle fails; FileExists of one bundle fails persistently; the bytes of one bundle are damaged (bad header, length prefix enlarged, truncation inside a message, message made undecodable, I/O error while reading) at a chosen message; the preprocessor fails on one block; the handler fails at call k. distinct = sha1 of header+body; non-trivial = at least one block was delivered before the fault",
+        "suites": [("faults", 500, 6000), ("stream", 100, 1200)], "props": ["C11"], "level": "fault_enumeration", "suite_timeout": 2400,
+        "nontrivial": lambda suite, case, impl: any(l.startswith("impl blk") or l.startswith("failnum") for l in case["lines"]),
+        "rule": "cases = a file source over a generated chain in bundles (size 2/3/5/10, 1-6 preprocessor threads, start in the first half, stop near the end) with exactly one injected fault: OpenObject of one bundle fails; FileExists of one bundle fails persistently; the bytes of one bundle are damaged (bad header, length prefix enlarged, truncation inside a message, message made undecodable, I/O error while reading) at a chosen message; the preprocessor fails on one block; the handler fails at call k; plus the stream cases of C07 in which the user handler fails on one block (in half of them on the stop block itself). distinct = sha1 of header+body; non-trivial = at least one block was delivered before the fault / a handler failure was injected",
         "technique": "Lean 4 sequential model giving the allowed outcome set per fault (gap-free prefix bounded by the fault position + error class) + fault-injecting store around the real FileSource + watchdog for Run not returning + late-handler-call detection",
         "level_text": 'Props/C11 (models): handler_error_ends_run + streamFile_budget — with a handler failing on call k exactly k+1 blocks reached it and they are an in-order parent-linked prefix; chain_break_ends_run — a broken parent link ends the run before the offending block; unresolvable_cursor_ends_run — no delivery at all; ended_is_final — once the stream has an outcome nothing changes; forkable_handler_error. That the real Run returns and Terminated is reached with the right error class is decided by enumerating faults (store open/exists/read at a chosen message with 5 damage modes, preprocessor, handler call k) against the real FileSource with a watchdog, accepting exactly the outcome set the model allows for the fault position; defects found this way are fixed (1d678d1, 70dac5d, 655b8c9).', "level_note": LEVEL_NOTE_COMMON, "explanation": "theorems on the sequential models + one injected fault per case against the real code, outcome compared with the model's allowed set (500/6000 cases)",
     },
@@ -215,12 +217,12 @@ PROPS = {
         "level_text": "Props/C18: window_after_lib_move — after every LIB move (advanceTo) no stored block is below LIB minus the retention; purge_keeps_window / lookup_survives_purge — nothing at or above it is removed and the by-hash lookup still returns it; lookup_by_hash / lookup_by_number / lookup_stable — a linked block is returned by hash and by number on whatever fork, and linking never changes other answers; lookup_ignores_sent_marks; head_is_last_new — HeadInfo equals the last block delivered as New. The canonical lookup at a height of the consumer's chain and LowestBlockNum (first block of the contiguous retained chain) are compared with the consumer's chain by the Lean query monitor after every fed block of every run; LowestBlockNum's crash on an inclusive root is fixed (c9b9db2).", "level_note": LEVEL_NOTE_COMMON, "explanation": 'as C01',
     },
     "C20": {
-        "suites": [("server", 1500, 20000)],
+        "suites": [("server", 1500, 20000), ("serverconc", 150, 3000)],
         "props": ["C20"],
-        "level": "proof",
+        "level": "proof", "facts": True,
         "technique": "Lean 4 theorems on an atomic-operation model of the server (invariant by induction over any push/recv interleaving, refinement of a subscriber's stream to burst++pushes) + differential correspondence through verif-tagged accessors",
-        "level_text": "stream_prefix proves for every interleaving of pushes and receives (every consumer speed) that a subscriber's received+queued blocks are burst++later pushes in order, complete until overflow; push_sub_inv/push_closed_frozen give closed-exactly-once and nothing-after-close; push_pointwise gives isolation; burst_spec/burst_negative/subscribe_spec give totality over all signed bursts; bufPush_* give the window clauses; send_never_blocks is the arithmetic core of the non-blocking send. Operations are atomic in the model (what the RWMutex provides); goroutine-level interleavings inside an operation are covered by the concurrent stress run of the thorough tier only.",
-        "level_note": LEVEL_NOTE_COMMON + "atomicity of PushBlock vs subscribe/unsubscribe (sync.RWMutex) and of channel operations is assumed, single producer; the Go scheduler/memory model is not modelled.",
+        "level_text": "stream_prefix proves for every interleaving of pushes and receives (every consumer speed) that a subscriber's received+queued blocks are burst++later pushes in order, complete until overflow; push_sub_inv/push_closed_frozen give closed-exactly-once and nothing-after-close; push_pointwise gives isolation; burst_spec/burst_negative/subscribe_spec give totality over all signed bursts; bufPush_* give the window clauses; send_never_blocks is the arithmetic core of the non-blocking send. Operations are atomic in the model; what makes them atomic in the code (each of PushBlock/subscribe/unsubscribe holds the server lock for the whole call, subscribe/unsubscribe for writing) is regenerated from /repo on every run (Facts.server, theorem server_facts_safe), locked_subscription_is_gapless proves for every interleaving of pushes with a locked subscription that no block falls between burst and fan-out, unlocked_subscription_loses_a_block is the kernel-checked counter-schedule; the serverconc suite runs PushBlock concurrently with 2-8 subscribing goroutines and demands a gap-free stream for each.",
+        "level_note": LEVEL_NOTE_COMMON + "atomicity of channel operations and the RWMutex semantics are assumed, single producer; the Go scheduler/memory model is not modelled (sampled by the serverconc suite).",
         "rule": "cases = one server (unbuffered or buffer size 0-8) driven by 5-45 generated ops (push incl. repeated ids, subscribe with burst from {-2^63,-1,0,0..9,2^63-1}, unsubscribe, non-blocking recv, Ready, buffer ids); 1 in 6 cases additionally overflows one never-reading subscriber by 215 pushes and drains it; distinct = sha1 of header+ops; non-trivial = contains push, subscribe and recv",
         "nontrivial": nt_server,
         "explanation": "model outputs compared op by op with the real server; an independent per-subscriber monitor checks burst++pushes order, overflow-close and window on the implementation's answers",
